@@ -18,7 +18,7 @@ HERE = os.path.dirname(os.path.abspath(__file__))
 sys.path.insert(0, HERE)
 import asm2lean_salsa as A  # noqa: E402
 
-TARGETS = ["SodiumModel.Properties.C03Asm", "SodiumModel.Properties.C03Asm2"]   # C03Asm2: theorem (a), the prologue
+TARGETS = ["SodiumModel.Properties.C03Asm", "SodiumModel.Properties.C03Asm2", "SodiumModel.Properties.C03Asm3"]   # C03Asm2: theorem (a), the prologue
 TARGET = " + ".join(TARGETS)
 REL_S = os.path.join("crypto_stream", "salsa20", "xmm6", "salsa20_xmm6-asm.S")
 
